@@ -18,7 +18,7 @@ RULE = ("every Command subclass with every constructor/attribute value in its do
         "GetCapabilities x 2 pages, ToggleDisplay x beep, energy, humidity, GetProperties over all 4096 subsets of the 12 "
         "property ids in several orders, SetProperties over every non-empty subset of the 9 encodable ids with generated "
         "values, SetState over C10's domain), one run of 70 000 (quick) / 200 000 (thorough) commands in a single process, sequences of 300..700 mixed commands (constructed one by one or all constructed before the first is emitted), and every public AirConditioner operation "
-        "against the model device under generated capability profiles, optionally with some commands left unanswered (the ids seen on the wire must still chain), or with two devices of the same process operated concurrently (the commands of both, in wire order, must chain). Command objects may also be constructed first and emitted in any order, and the same object more than once (every emission is a command). Oracle: strict independent frame parser (0xAA, length "
+        "against the model device under generated capability profiles, optionally with some commands left unanswered (the ids seen on the wire must still chain), or with two devices of the same process operated concurrently (the commands of both, in wire order, must chain). A third of the device histories run with logging configured as in a real application (WARNING or DEBUG level, records formatted). Command objects may also be constructed first and emitted in any order, and the same object more than once (every emission is a command). Oracle: strict independent frame parser (0xAA, length "
         "byte == len-1, appliance 0xAC, frame type 0x02 for the two write commands else 0x03, body = [documented command id ... "
         "message id, bitwise CRC-8], two's complement checksum), the model's conformance parser accepts the body, message ids "
         "advance by one modulo 256. Non-trivial: variable-length property commands, a sequence that wraps the id, or a device "
@@ -256,7 +256,14 @@ def check_device(case: dict):
         res["m"] = m
         ac._lan._disconnect()
 
-    vloop.run(main, net)
+    if case.get("logging"):
+        # logging configured as in a real application (Python's default WARNING level, or DEBUG), records formatted
+        import logging
+        from .. import harness
+        with harness.debug_logging(logging.DEBUG if case["logging"] == "debug" else logging.WARNING):
+            vloop.run(main, net)
+    else:
+        vloop.run(main, net)
     m = res["m"]
     if m.rejected or (res.get("m2") is not None and res["m2"].rejected):
         rej = m.rejected or res["m2"].rejected
@@ -399,6 +406,17 @@ def run(ctx) -> None:
                                 "ops": ["refresh", "set", "apply", "refresh", "toggle", "refresh"], "twin": twin}
                         ctx.check(case, lambda c: _run_one(ctx, c))
     ctx.sweep("two devices concurrently x capability profiles", t, True)
+    # unanswered commands with logging configured as in a real application (records are formatted)
+    u = 0
+    for level in ("warning", "debug"):
+        for unanswered in ([0], [1], [0, 1], [2], [1, 3], [0, 2, 4]):
+            for ops in (["refresh", "refresh", "refresh"], ["refresh", "apply", "refresh"], ["caps", "refresh", "toggle", "refresh"], ["apply", "clean", "refresh"]):
+                u += 1
+                if ctx.mine(u):
+                    case = {"op": "device", "profile": {"energy": u % 2 == 0, "humidity": u % 3 == 0, "props": [0x0009, 0x0039], "split": 0}, "state": dict(TWIN_STATE),
+                            "ops": ops, "unanswered": unanswered, "logging": level}
+                    ctx.check(case, lambda c: _run_one(ctx, c))
+    ctx.sweep("unanswered commands x logging level x operation lists", u, True)
 
     # set-state frames over C10's domain + device operations
     spec_state = gens.settable_states().flatmap(lambda s: st.tuples(st.integers(0, 127), st.integers(0, 127)).map(lambda fh: dict(s, fan=fh[0], humidity=fh[1])))
@@ -416,6 +434,7 @@ def run(ctx) -> None:
                                      "split": st.integers(0, 3)})
     dev_cases = st.fixed_dictionaries({"op": st.just("device"), "profile": profile, "state": gens.settable_states(),
                                        "ops": st.lists(st.sampled_from(["refresh", "caps", "apply", "toggle", "clean", "set"]), min_size=1, max_size=8)},
-                                      optional={"unanswered": st.lists(st.integers(0, 12), max_size=3, unique=True), "twin": st.sampled_from([0, 0, 1, 1.7, 0.4])}).map(
+                                      optional={"unanswered": st.lists(st.integers(0, 12), max_size=3, unique=True), "twin": st.sampled_from([0, 0, 1, 1.7, 0.4]),
+                                                "logging": st.sampled_from([None, "warning", "debug"])}).map(
         lambda c: {k: v for k, v in c.items() if not (k == "unanswered" and c.get("twin"))})
     ctx.hyp("device-ops", dev_cases, lambda c: _run_one(ctx, c), ctx.n(1600, 64000))
